@@ -48,6 +48,8 @@ type spec struct {
 	subject  string
 	fromName string
 	nTo, nCc int
+	toNames  []string // display names of the To recipients (nil: the default "Tö i")
+	ccNames  []string // display names of the Cc recipients (nil: bare addresses); "" = bare address
 	date     int64
 	plain    *string
 	html     *string
@@ -119,7 +121,7 @@ func filesUnhex(s string) []fileSpec {
 }
 
 func (s spec) args() []string {
-	return []string{hx.Hex([]byte(s.enc)), hx.Hex([]byte(s.subject)), hx.Hex([]byte(s.fromName)), strconv.Itoa(s.nTo), strconv.Itoa(s.nCc),
+	return []string{hx.Hex([]byte(s.enc)), hx.Hex([]byte(s.subject)), hx.Hex([]byte(s.fromName)), countArg(s.nTo, s.toNames), countArg(s.nCc, s.ccNames),
 		strconv.FormatInt(s.date, 10), withEnc(optHex(s.plain), s.penc), s.htmlArg(), filesHex(s.atts), filesHex(s.embs)}
 }
 
@@ -137,13 +139,13 @@ func (s spec) htmlArg() string {
 }
 
 func specOf(a []string) spec {
-	nTo, _ := strconv.Atoi(a[3])
-	nCc, _ := strconv.Atoi(a[4])
+	nTo, toNames := countUnarg(a[3])
+	nCc, ccNames := countUnarg(a[4])
 	d, _ := strconv.ParseInt(a[5], 10, 64)
 	ph, penc := splitEnc(a[6])
 	hparts := strings.Split(a[7], "+")
 	hh, henc := splitEnc(hparts[0])
-	sp := spec{enc: string(hx.UnHex(a[0])), subject: string(hx.UnHex(a[1])), fromName: string(hx.UnHex(a[2])), nTo: nTo, nCc: nCc, date: d,
+	sp := spec{enc: string(hx.UnHex(a[0])), subject: string(hx.UnHex(a[1])), fromName: string(hx.UnHex(a[2])), nTo: nTo, nCc: nCc, toNames: toNames, ccNames: ccNames, date: d,
 		plain: optUnhex(ph), html: optUnhex(hh), penc: penc, henc: henc, atts: filesUnhex(a[8]), embs: filesUnhex(a[9])}
 	for _, e := range hparts[1:] {
 		t, rest, _ := strings.Cut(e, ":")
@@ -172,18 +174,86 @@ func (s spec) shape() string {
 
 func toName(i int) string { return fmt.Sprintf("Tö %d", i) }
 
+func (s spec) toNameAt(i int) string {
+	if s.toNames != nil && i < len(s.toNames) {
+		return s.toNames[i]
+	}
+	return toName(i)
+}
+
+func (s spec) ccNameAt(i int) string {
+	if s.ccNames != nil && i < len(s.ccNames) {
+		return s.ccNames[i]
+	}
+	return ""
+}
+
+// count[:hexname,hexname,…]
+func countArg(n int, names []string) string {
+	out := strconv.Itoa(n)
+	if names != nil {
+		var h []string
+		for _, x := range names {
+			h = append(h, hx.Hex([]byte(x)))
+		}
+		out += ":" + strings.Join(h, ",")
+	}
+	return out
+}
+
+func countUnarg(a string) (int, []string) {
+	c, rest, has := strings.Cut(a, ":")
+	n, _ := strconv.Atoi(c)
+	if !has {
+		return n, nil
+	}
+	names := []string{}
+	for _, h := range strings.Split(rest, ",") {
+		names = append(names, string(hx.UnHex(h)))
+	}
+	return n, names
+}
+
+// the class of the known finding dispname-backslash-q-encoded-word (net/mail cannot read its own output)
+func backslashQ(name string) bool {
+	nonASCII := false
+	for i := 0; i < len(name); i++ {
+		if name[i] >= 128 || name[i] < 32 {
+			nonASCII = true
+		}
+	}
+	return nonASCII && strings.Contains(name, "\\") && !strings.ContainsAny(name, "\"#$%&'(),.:;<>@[]^`{|}~")
+}
+
+func (s spec) hasBackslashQ() bool {
+	if backslashQ(s.fromName) {
+		return true
+	}
+	for i := 0; i < s.nTo; i++ {
+		if backslashQ(s.toNameAt(i)) {
+			return true
+		}
+	}
+	for i := 0; i < s.nCc; i++ {
+		if backslashQ(s.ccNameAt(i)) {
+			return true
+		}
+	}
+	return false
+}
+
 func (s spec) build() (*mail.Msg, error) {
 	m := mail.NewMsg(mail.WithEncoding(mail.Encoding(s.enc)))
 	if err := m.FromFormat(s.fromName, "from@x.test"); err != nil {
 		return nil, err
 	}
 	for i := 0; i < s.nTo; i++ {
-		if err := m.AddToFormat(toName(i), fmt.Sprintf("to%d@x.test", i)); err != nil {
+		if err := m.AddToFormat(s.toNameAt(i), fmt.Sprintf("to%d@x.test", i)); err != nil {
 			return nil, err
 		}
 	}
 	for i := 0; i < s.nCc; i++ {
-		if err := m.AddCc(fmt.Sprintf("cc%d@x.test", i)); err != nil {
+		if err := m.AddCcFormat(s.ccNameAt(i), fmt.Sprintf("cc%d@x.test", i)); err != nil {
 			return nil, err
 		}
 	}
@@ -452,14 +522,21 @@ func (s spec) checkParsed(r *hx.Run, id string, m2 *mail.Msg) {
 		r.Fail(id, "to-count", fmt.Sprintf("%d To addresses parsed back as %d", s.nTo, len(to)))
 	} else {
 		for i, a := range to {
-			if a.Address != fmt.Sprintf("to%d@x.test", i) || a.Name != toName(i) {
-				r.Fail(id, "to-mismatch", fmt.Sprintf("To[%d] parsed back as %v", i, a))
+			if a.Address != fmt.Sprintf("to%d@x.test", i) || a.Name != s.toNameAt(i) {
+				r.Fail(id, "to-mismatch", fmt.Sprintf("To[%d] (name %q) parsed back as %v", i, s.toNameAt(i), a))
 				break
 			}
 		}
 	}
 	if cc := m2.GetCc(); len(cc) != s.nCc {
 		r.Fail(id, "cc-count", fmt.Sprintf("%d Cc addresses parsed back as %d", s.nCc, len(cc)))
+	} else {
+		for i, a := range cc {
+			if a.Address != fmt.Sprintf("cc%d@x.test", i) || a.Name != s.ccNameAt(i) {
+				r.Fail(id, "cc-mismatch", fmt.Sprintf("Cc[%d] (name %q) parsed back as %v", i, s.ccNameAt(i), a))
+				break
+			}
+		}
 	}
 	// date
 	if v := m2.GetGenHeader(mail.HeaderDate); len(v) != 1 {
@@ -559,11 +636,27 @@ func (s spec) checkRerender(r *hx.Run, id string, r2 []byte) {
 	if al, err := hdr.AddressList("From"); err != nil || len(al) != 1 || al[0].Name != s.fromName || al[0].Address != "from@x.test" {
 		r.Fail(id, "rerender-from-mismatch", fmt.Sprintf("from %q re-rendered as %q", s.fromName, hdr.Get("From")))
 	}
-	if s.nTo > 0 {
-		if al, err := hdr.AddressList("To"); err != nil || len(al) != s.nTo {
-			r.Fail(id, "rerender-to-mismatch", fmt.Sprintf("To re-rendered as %q", hdr.Get("To")))
+	chkList := func(field string, n int, nameAt func(int) string, addr string) {
+		if n == 0 {
+			if hdr.Get(field) != "" {
+				r.Fail(id, "rerender-"+strings.ToLower(field)+"-added", fmt.Sprintf("%s re-rendered as %q", field, hdr.Get(field)))
+			}
+			return
+		}
+		al, err := hdr.AddressList(field)
+		if err != nil || len(al) != n {
+			r.Fail(id, "rerender-"+strings.ToLower(field)+"-mismatch", fmt.Sprintf("%d %s recipients re-rendered as %q", n, field, hdr.Get(field)))
+			return
+		}
+		for i, a := range al {
+			if a.Name != nameAt(i) || a.Address != fmt.Sprintf(addr, i) {
+				r.Fail(id, "rerender-"+strings.ToLower(field)+"-mismatch", fmt.Sprintf("%s[%d] (name %q) re-rendered as %v", field, i, nameAt(i), a))
+				return
+			}
 		}
 	}
+	chkList("To", s.nTo, s.toNameAt, "to%d@x.test")
+	chkList("Cc", s.nCc, s.ccNameAt, "cc%d@x.test")
 	if d, err := hdr.Date(); err != nil || d.Unix() != s.date {
 		r.Fail(id, "rerender-date-mismatch", fmt.Sprintf("date re-rendered as %q", hdr.Get("Date")))
 	}
@@ -684,6 +777,11 @@ func runRT(r *hx.Run, id string, s spec) {
 	tree := emlx.Tree(r1, -1, 0)
 	flags := fmt.Sprintf("1%s%s", b01(s.nTo > 0), b01(s.nCc > 0))
 	mc := hx.Case{ID: id, Kind: "rt", Args: append(append(s.args(), flags), strings.Split(tree, " ")...)}
+	if res.Msg == nil && s.hasBackslashQ() {
+		r.Fail(id, "dispname-backslash-q-encoded-word", fmt.Sprintf("parsing go-mail's own rendering: %s (a display name is non-ASCII with a backslash)", res.Obs))
+		r.Add(mc, res.Obs, true)
+		return
+	}
 	if res.Msg == nil {
 		r.Fail(id, "parse-"+res.Obs+"-"+s.shape(), fmt.Sprintf("parsing go-mail's own rendering: %s %s", res.Obs, res.PanicMsg))
 		r.Add(mc, res.Obs, true)
@@ -847,6 +945,40 @@ func (x g) spec() spec {
 	s.fromName = x.words(2, 25)
 	s.nTo = 1 + x.n(3)
 	s.nCc = x.n(3)
+	if x.p(35) {
+		// names with characters that make net/mail quote or encode the phrase
+		nm := func() string {
+			w := x.words(1+x.n(2), 15)
+			switch x.n(8) {
+			case 0:
+				return w + ", " + x.words(1, 0)
+			case 1:
+				return w + "; " + x.words(1, 0)
+			case 2:
+				return w + ": <" + x.words(1, 0) + ">"
+			case 3:
+				return "(" + w + ") J. R."
+			case 4:
+				return w + " @ \"" + x.words(1, 0) + "\""
+			case 5:
+				return w + "\\, x"
+			case 6:
+				return ""
+			default:
+				return w
+			}
+		}
+		s.fromName = nm()
+		if s.fromName == "" {
+			s.fromName = "F"
+		}
+		for i := 0; i < s.nTo; i++ {
+			s.toNames = append(s.toNames, nm())
+		}
+		for i := 0; i < s.nCc; i++ {
+			s.ccNames = append(s.ccNames, nm())
+		}
+	}
 	shape := x.n(10)
 	pl, ht := x.text(false), x.text(true)
 	switch {
@@ -936,6 +1068,19 @@ func Run(r *hx.Run, replay []hx.Case) {
 				s.embs = []fileSpec{{"i.png", []byte("\x89PNG")}}
 			}
 			runRT(r, r.NewID(), s)
+		}
+	}
+	// display names that make net/mail quote the phrase (or encode it): comma, semicolon, colon, angle brackets,
+	// parentheses, dots, at-sign, quotes, backslash - in From, To and Cc, 1..3 recipients, mixed with plain ones
+	special := []string{"Doe, John", "a;b", "Team: ops", "<angle>", "(paren) x", "J. R. Smith", "me@home", "say \"hi\"", "back\\slash",
+		"Dö, J", "Smith, J.; \"x\" <y> (z) @ \\", "plain name", "", "O'Neil & Co", "[list] #1", "D\u00f6 \\ x"}
+	for i, n1 := range special {
+		p0 := "body"
+		for k := 1; k <= 3; k++ {
+			tn := []string{n1, "Plain", special[(i+5)%len(special)]}[:k]
+			cn := []string{special[(i+3)%len(special)], ""}[:k%3]
+			runRT(r, r.NewID(), spec{enc: "quoted-printable", subject: "names", fromName: special[(i+1)%len(special)], nTo: k, nCc: len(cn),
+				toNames: tn, ccNames: cn, date: 1700000000, plain: &p0})
 		}
 	}
 	// per-part transfer encodings: ALL ordered pairs and triples of {qp, base64, 8bit, 7bit} for the
